@@ -39,7 +39,7 @@ UNKS = (NONNEIGHBOR, NEIGHBOR, ERROR)
 def budget(tier):
     if tier == "quick":
         return dict(shards=16, examples=2000, time_s=50)
-    return dict(shards=16, examples=50000, time_s=850)
+    return dict(shards=16, examples=35000, time_s=850)
 
 
 def strategy(tier):
